@@ -414,13 +414,13 @@ class TensorEval:
             return res
         if isinstance(e, ast.UnaryOp) and isinstance(e.op, ast.Not):
             v_ = self.ev(f, e.operand, env)
-            if isinstance(v_, (bool, int, np.bool_, np.integer)) or v_ is None:
+            if isinstance(v_, (bool, int, np.bool_, np.integer, list, tuple, range, dict, str)) or v_ is None:
                 return not v_
             raise Unknown('negation of a symbolic value')
         if isinstance(e, ast.IfExp):
             c_ = self.ev(f, e.test, env)
-            if isinstance(c_, (bool, int, np.bool_, np.integer)) or c_ is None:
-                return self.ev(f, e.body if c_ else e.orelse, env)
+            if isinstance(c_, (bool, int, np.bool_, np.integer, list, tuple, range, dict, str)) or c_ is None:
+                return self.ev(f, e.body if c_ else e.orelse, env)          # python containers: true when not empty
             raise Unknown('conditional on a symbolic value')
         if isinstance(e, ast.Attribute) and isinstance(e.value, ast.Name) and e.value.id in ('_np', 'np', 'numpy') and e.value.id not in env:
             if e.attr in ('inf', 'nan', 'pi', 'newaxis', 'int32', 'int64', 'uint8', 'uint32', 'float32', 'float64', 'bool_', 'r_', 'integer'):
@@ -534,7 +534,22 @@ class TensorEval:
             v2 = self.ev(f, e.args[2], env)
             if isinstance(v2, np.ndarray) and v2.dtype == object or isinstance(v2, Q):
                 return v2                # repair of degenerate (zero / non-finite) cells: symbolic cells are generic, the mask is empty
-        args = [self.ev(f, a, env) for a in e.args]
+        args = []
+        for a in e.args:
+            if isinstance(a, ast.Starred):
+                sv_ = self.ev(f, a.value, env)          # `*seq` of a concrete python sequence
+                if not isinstance(sv_, (tuple, list, range)):
+                    raise Unknown('star argument that is not a plain sequence')
+                args.extend(sv_)
+            else:
+                args.append(self.ev(f, a, env))
+        if isinstance(fn, ast.Attribute) and fn.attr == 'indices' and len(args) == 1 and isinstance(args[0], (int, np.integer)) and not kw:
+            try:
+                recv_ = self.ev(f, fn.value, env)
+            except Unknown:
+                recv_ = None
+            if isinstance(recv_, slice):
+                return recv_.indices(int(args[0]))
         if isinstance(fn, ast.Name) and isinstance(env.get(fn.id), FnVal) and self.depth < 4:
             g = env[fn.id].func
             ps = [x for x in g.params]
